@@ -29,7 +29,7 @@ RULE = ('part V: every channel configuration (9 codes x samples x bursts, 1-3 ch
 ASSUMPTIONS = ['slices: any start and stop (None, negative, beyond the last frame) with Python slice semantics, step None or >= 1; a negative step is refused by the library with its own exception class (ExceptionFrameSetPlanNegLen) and is not enumerated',
                'frame values are exactly representable in their code and in float64; implied X with spacing 1/2 is compared exactly, spacing 1/10 and converted units within (frames+2) ulp',
                'index entries are compared for header, trailer, table and format-specification records; records of unknown internal format need only not disturb their neighbours',
-               'dipmeter codes (130, 234) are exercised in C08 only']
+               'dipmeter codes 130 / 234 carry one-byte unsigned values; their sub-channel layout (5 fast x 16 samples, sample-major, then 10 slow) is the one of LIS-79']
 BOUNDS = {'quick': 'S: frames <= 7; P: 7 patterns; D: 5 interleavings', 'thorough': 'S: frames <= 9, V with (9,4) added; P: plus every 3- and 4-record pattern over {1,2,3} frames whose leading records differ; D: 8 interleavings; H depth 3'}
 LEVEL_TEXT = ('Every load of the enumerated selection space runs on the real index of an independently produced file and is compared '
               'element by element; the file reads during a load are checked against the layout map; histories of loads are explored '
@@ -92,8 +92,13 @@ def x_of(spec, f):
     return to_code(spec['channels'][0]['code'], Fraction(spec['x0']) + d * f * sp)
 
 
+DIP_VALUES = {130: 80, 234: 90}      # dipmeter codes: 16 samples x 5 fast channels (+ 10 slow channels), one byte each
+
+
 def channel_values(spec, pk, f, c):
     ch = spec['channels'][c]
+    if ch['code'] in DIP_VALUES:
+        return [Fraction((pk * 53 + f * 17 + c * 7 + e * 3 + 1) % 256) for e in range(DIP_VALUES[ch['code']])]
     n = ch['samples'] * ch['bursts']
     if c == 0 and not spec['indirect'] and ch['code'] in (68, 73) and n == 1 and spec.get('even_x', True):
         return [x_of(spec, f)]
@@ -114,7 +119,8 @@ def build_pass(spec, pk=0):
         ebs.append((15, 66, bytes([spec['indirect']])))
     else:
         ebs.append((13, 66, b'\x00'))
-    dsbs = [L.dsb(c['mnem'].encode(), c['units'].encode(), L.RC_SIZE[c['code']] * c['samples'] * c['bursts'], c['samples'], c['code'])
+    dsbs = [L.dsb(c['mnem'].encode(), c['units'].encode(),
+                  DIP_VALUES[c['code']] if c['code'] in DIP_VALUES else L.RC_SIZE[c['code']] * c['samples'] * c['bursts'], c['samples'], c['code'])
             for c in spec['channels']]
     recs = [L.dfsr(ebs, dsbs)]
     n = spec['n']
@@ -132,7 +138,7 @@ def build_pass(spec, pk=0):
             by = b''
             for c, ch in enumerate(spec['channels']):
                 for v in matrix[f][c]:
-                    by += L.encode(ch['code'], v)
+                    by += bytes([int(v)]) if ch['code'] in DIP_VALUES else L.encode(ch['code'], v)
             frames.append(by)
         ix = None
         if spec['indirect']:
@@ -316,6 +322,31 @@ def bug_f8_vector(spec, model, frames):
     return out
 
 
+def check_dipmeter_accessors(spec, model, fs, frames, c, sl, chs):
+    """A dipmeter channel is presented as 5 fast sub-channels of 16 samples (values interleaved on the tape: sample-major) and,
+    for code 234, 10 slow sub-channels of one value each that follow the 80 fast bytes (LIS-79 appendix on codes 130 / 234)."""
+    code = spec['channels'][c]['code']
+    nsub = 5 if code == 130 else 15
+    try:
+        if fs.numSubChannels(c) != nsub:
+            return [({'kind': 'dipmeter_sub_channels'}, 'load(%r,%r): channel %d (code %d) has %r sub-channels, %d expected' % (sl, chs, c, code, fs.numSubChannels(c), nsub))]
+        for r, f in enumerate(frames):
+            vals = [float(v) for v in model['matrix'][f][c]]
+            for sc in range(nsub):
+                expv = [vals[sa * 5 + sc] for sa in range(16)] if sc < 5 else [vals[80 + sc - 5]]
+                view = [float(v) for v in fs.frame_channel_sub_channel_values(r, c, sc)]
+                if view != expv:
+                    return [({'kind': 'dipmeter_view_values'}, 'load(%r,%r): frame %d dipmeter channel %d sub-channel %d: view %r recorded %r' % (sl, chs, r, c, sc, view, expv))]
+                for sa in range(len(expv)):
+                    v = float(fs.value(r, c, sc, sa, 0))
+                    if v != expv[sa]:
+                        return [({'kind': 'dipmeter_addressed_value'}, 'load(%r,%r): value(frame %d, channel %d, sub-channel %d, sample %d, 0)=%r recorded %r'
+                                 % (sl, chs, r, c, sc, sa, v, expv[sa]))]
+    except Exception as err:  # noqa
+        return [({'kind': 'accessor_raises', 'exc': type(err).__name__}, 'load(%r,%r): dipmeter channel %d: %s: %s' % (sl, chs, c, type(err).__name__, err))]
+    return []
+
+
 def check_accessors(spec, model, fs, frames, cols, sl, chs):
     """The addressed forms of the same frame set - value(frame, channel, sub-channel, sample, burst), valueIdxInFrame and
     the per-channel views - against the recorded value of that very frame / channel / sample / burst (bursts vary fastest
@@ -323,6 +354,11 @@ def check_accessors(spec, model, fs, frames, cols, sl, chs):
     for c in cols:
         ch = spec['channels'][c]
         sa_n, bu_n = ch['samples'], ch['bursts']
+        if ch['code'] in DIP_VALUES:
+            bad = check_dipmeter_accessors(spec, model, fs, frames, c, sl, chs)
+            if bad:
+                return bad
+            continue
         try:
             if (fs.numSamples(c, 0), fs.numBursts(c, 0)) != (sa_n, bu_n):
                 return [({'kind': 'samples_bursts'}, 'load(%r,%r): channel %d has (samples,bursts)=%r, recorded %r'
@@ -440,6 +476,10 @@ def configs_V():
         for c1 in CODES:
             for sa, bu in ((1, 1), (2, 1), (1, 2), (2, 2), (3, 2)):
                 yield [chan('X   ', c0), chan('A   ', c1, sa, bu)]
+    for dip in (130, 234):
+        yield [chan('X   ', 68), chan('DIP ', dip)]
+        yield [chan('X   ', 73), chan('A   ', 79, 2, 1), chan('DIP ', dip), chan('B   ', 68)]
+        yield [chan('X   ', 68), chan('DIP ', dip), chan('DIP2', 364 - dip)]
     for i, (c1, (sa, bu)) in enumerate(itertools.product(CODES, ((1, 1), (2, 1), (1, 2), (2, 2)))):
         yield [chan('X   ', 68), chan('A   ', c1, sa, bu), chan('B   ', CODES[(i * 2 + 3) % 9], 1 + i % 2, 1)]
 
